@@ -244,11 +244,16 @@ def body_run(scn):
     return dict(violations=v, labels=labs, nontrivial=nt, oracle_evals=evals, sample=dict(runlevel.small(scn), ncalls=len(tr.calls)))
 
 
+ADV_EXCLUDE = ()
+
+
 def plan(tier):
-    return [("exhaustive", 16), ("unit", 8), ("runs", 16)] + ([("fuzz", 16)] if tier == "thorough" else [])
+    return [("exhaustive", 16), ("unit", 8), ("runs", 16), ("advopts", 16)] + ([("fuzz", 16)] if tier == "thorough" else [])
 
 
 def run_part(res, part, tier, seed, shard, nshards):
+    if part == "advopts":
+        return runlevel.adv_sweep(res, PROFILE, tier, seed, shard, nshards, body_run, exclude=ADV_EXCLUDE)
     if part == "fuzz":
         # coverage-guided campaign (atheris/libFuzzer) on the same Hypothesis test, empty corpus, fixed -runs and -seed
         return engine.run_fuzz_part(res, "C17", "fuzz", 20000, seed, shard)
@@ -262,7 +267,7 @@ def run_part(res, part, tier, seed, shard, nshards):
 
 
 def minimise(part, tier, sig, case, seed):
-    if part == "runs":
+    if part in ("runs", "advopts"):
         return runlevel.field_minimise(case, sig, body_run, max_runs=12 if tier == "quick" else 40)
     if part in ("unit", "fuzz"):
         m = engine.hyp_minimise(unit_cases(), lambda c: any(engine.signature(x) == sig for x in body_unit(c)["violations"]), 3000, seed)
@@ -271,7 +276,7 @@ def minimise(part, tier, sig, case, seed):
 
 
 def replay(part, case):
-    if part == "runs":
+    if part in ("runs", "advopts"):
         return runlevel.replay_body(body_run, case)
     return replay_unit(case)[0]
 
